@@ -20,7 +20,7 @@ rc, out = run(["git", "-C", "/repo", "worktree", "add", "-q", str(wt), "HEAD"])
 res = {"property": pid, "k": k}
 try:
     patch = src / f"patch{k}.diff"
-    rc, out = run(["git", "-C", str(wt), "apply", str(patch)])
+    rc, out = run(["git", "-C", str(wt), "apply", "-3", str(patch)])
     res["applies"] = rc == 0
     env = dict(os.environ, PYTHONPATH=str(wt), PYTHONDONTWRITEBYTECODE="1")
     env.pop("FRAME_VERIF", None)
